@@ -107,11 +107,21 @@ class Real:
             return False
         except IndexError:
             return True
+        except Exception as exc:  # pylint: disable=broad-except
+            return type(exc).__name__  # type: ignore[return-value]   # (neither accepted nor rejected: a mismatch)
 
     def observe(self, rej: bool) -> dict:
         rb = self.rb
-        return {"rej": rej, "gaps": [[to_us(g.start), to_us(g.end)] for g in rb.gaps], "cv": int(rb.count_valid()),
-                "cc": int(rb.count_covered()), "old": to_us(rb.oldest_timestamp), "new": to_us(rb.newest_timestamp)}
+
+        def safe(f: Any) -> Any:
+            try:
+                return f()
+            except Exception as exc:  # pylint: disable=broad-except
+                return type(exc).__name__
+
+        return {"rej": rej, "gaps": safe(lambda: [[to_us(g.start), to_us(g.end)] for g in rb.gaps]),
+                "cv": safe(lambda: int(rb.count_valid())), "cc": safe(lambda: int(rb.count_covered())),
+                "old": safe(lambda: to_us(rb.oldest_timestamp)), "new": safe(lambda: to_us(rb.newest_timestamp))}
 
     def roundtrip(self) -> None:
         """`serialization.dump` + `load` (pickle), then go on with the loaded instance."""
@@ -131,18 +141,28 @@ class Real:
         if k in ("widx", "wts"):
             a, b = (q["i"], q["j"]) if k == "widx" else (to_dt(q["a"]), to_dt(q["b"]))
             fill = fill_arg(q.get("fill"), bool(q.get("fi")))
-            res = [val_out(x) for x in self.rb.window(a, b, fill_value=fill)]
-            if q.get("fill") is None:
-                via = [val_out(x) for x in self.mw[a:b]]
+            kw = {"fill_value": fill}
+            if "fc" in q:
+                kw["force_copy"] = bool(q["fc"])   # (False only together with fill "raw": a view is allowed then)
+
+            def call(f: Any, *args: Any, **kwargs: Any) -> Any:
+                """Result in canonical form; an exception is a result too (`"IndexError"`, …), never a crash."""
+                try:
+                    return [val_out(x) for x in f(*args, **kwargs)]
+                except Exception as exc:  # pylint: disable=broad-except
+                    return type(exc).__name__
+
+            res = call(self.rb.window, a, b, **kw)
+            # the same query through the wrapper: `MovingWindow.window` must hand every argument through unchanged,
+            # `MovingWindow[a:b]` is the default query (the direct call's result is what the oracle checks)
+            via = call(self.mw.window, a, b, **kw) if (q.get("fill") is not None or "fc" in q or q.get("span")) else res
+            if via != res:
+                note = (f"MovingWindow.window(fill_value={q.get('fill')}{' (int)' if q.get('fi') else ''}"
+                        f"{', force_copy=False' if q.get('fc') is False else ''})={via} but buffer.window={res} for {q}")
+            if q.get("fill") is None and "fc" not in q:
+                via = call(lambda: self.mw[a:b])
                 if via != res:
-                    note = f"MovingWindow[a:b]={via} but buffer.window={res}"
-            else:
-                # an explicit fill value (0 / 0.0 / negative / fractional / None) also through `MovingWindow.window`: it
-                # must hand the fill value through unchanged (the direct call's result is what the oracle checks)
-                via = [val_out(x) for x in self.mw.window(a, b, fill_value=fill)]
-                if via != res:
-                    note = (f"MovingWindow.window(fill_value={q.get('fill')}{' (int)' if q.get('fi') else ''})={via} "
-                            f"but buffer.window={res} for {q}")
+                    note = f"MovingWindow[a:b]={via} but buffer.window={res} for {q}"
             return res, note
         key = q["i"] if k == "ati" else to_dt(q["t"])
         outs = []
@@ -151,6 +171,8 @@ class Real:
                 outs.append(val_out(f(key)))
             except IndexError:
                 outs.append("IndexError")
+            except Exception as exc:  # pylint: disable=broad-except
+                outs.append(type(exc).__name__)
         if outs[0] != outs[1]:
             note = f"MovingWindow[key]={outs[1]} but at(key)={outs[0]}"
         return outs[0], note
@@ -302,7 +324,8 @@ def check_case(case: dict, out: dict, notes: list[str]) -> list[tuple[str, Any, 
         got = dict(st)
         # an empty range `Gap(t, t)` covers no slot; the only one the code leaves behind is `Gap(newest, newest)` for
         # capacity 1 right after a jump — that one is ignored; the list must be sorted and well-formed
-        well_formed = all(s <= e for s, e in got["gaps"]) and got["gaps"] == sorted(got["gaps"])
+        well_formed = not isinstance(got["gaps"], list) or (
+            all(s <= e for s, e in got["gaps"]) and got["gaps"] == sorted(got["gaps"]))
         newest_t = ref.time(ref.newest) if ref.newest is not None else None
         if case["cap"] == 1 and got["gaps"] == [[newest_t, newest_t]]:
             got["gaps"] = []
@@ -317,15 +340,23 @@ def check_case(case: dict, out: dict, notes: list[str]) -> list[tuple[str, Any, 
             bad.append(("gaps", {"step": i, "observed": st["gaps"], "why": "not sorted / start > end"}, None))
     cc_float_off = bool(ref.vals) and not float_floor_div_exact(ref.covered(), case["period"])
     for q, got in zip(case["q"], out["q"]):
-        if q.get("fill") == "raw":
-            continue  # `fill_value=None` hands out the raw container by design: only model = code is required
         exp = ref.expect_query(q)
+        if q.get("fill") == "raw":
+            # `fill_value=None` hands out the raw container by design: what a slot without a valid value shows is not
+            # specified (model = code only) — but WHICH slots are returned is, and so is every valid value
+            hole = "<unspecified>"
+            exp = ref.expect_query(dict(q, fill=hole))
+            if isinstance(got, list) and len(got) == len(exp):
+                got = [hole if e == hole else g for g, e in zip(got, exp)]
         if got != exp:
             reg = ref.regime(q)
             if reg is None and cc_float_off and q["k"] in ("widx", "ati"):
                 reg = "CountCoveredFloatQuotient"
-            if q["k"] in ("widx", "wts"):
-                leaked = [v for v in got if v is not None and v != q.get("fill") and v not in ref.vals.values()]
+            if q["k"] in ("widx", "wts") and not isinstance(got, list):
+                clause = "window-raises"      # a legal query never raises: a range without a stored slot is empty
+            elif q["k"] in ("widx", "wts"):
+                leaked = [v for v in got if v is not None and v != q.get("fill") and v not in ref.vals.values()
+                          and q.get("fill") != "raw"]
                 span = (q["b"] - q["a"]) if q["k"] == "wts" else None
                 if leaked:
                     clause = "window-leaks-evicted-or-unwritten"
@@ -440,6 +471,45 @@ def gen_queries(rng: random.Random, case: dict, rich: bool) -> list[dict]:
     return qs
 
 
+def span_queries(case: dict, rng: random.Random | None = None) -> list[dict]:
+    """Datetime windows placed relative to the two ends of the stored span: entirely after the newest slot, entirely
+    before the oldest valid one, straddling either end, starting / ending exactly one period outside, far away; every
+    bound on the grid and off it (just next to it, around the half-way point); default fill, explicit fills, raw reads
+    with and without `force_copy`.  With `rng`: a sample of them (the plain budget), otherwise all."""
+    period, align = case["period"], case["align"]
+    ref = Ref(case)
+    for op in case["ops"]:
+        ref.update(op)
+    if ref.newest is None:
+        lo = hi = 0
+    else:
+        lo, hi = (ref.oldest() if ref.vals else ref.newest - case["cap"] + 1), ref.newest
+    h = period // 2
+    offs = sorted({0, 1, -1, h, h + 1, -h, period * 7 // 10, -(period * 3 // 10)} - {period, -period})
+    slots_a = [hi - 1, hi, hi + 1, hi + 2, hi + 3, hi + 30, lo - 30, lo - 3, lo - 2, lo - 1, lo, lo + 1]
+    pairs: list[tuple[int, int]] = []
+    for ka in slots_a:
+        for kb in (ka, ka + 1, ka + 2, hi + 1, hi + 2, hi + 60, lo - 1, lo, lo - 60):
+            for oa in offs:
+                for ob in (0, oa, period * 2 // 10):
+                    pairs.append((align + ka * period + oa, align + kb * period + ob))
+    pairs = sorted(set(pairs))
+    if rng is not None:
+        pairs = rng.sample(pairs, min(len(pairs), 24))
+    qs: list[dict] = []
+    for n, (a, b) in enumerate(pairs):
+        qs.append({"k": "wts", "a": a, "b": b, "fill": None, "span": True})   # (`span`: also via MovingWindow.window)
+        kind = n % 4 if rng is None else rng.randrange(8)
+        if kind == 0:
+            f, as_int = FILLS[(n // 4) % len(FILLS)]
+            qs.append({"k": "wts", "a": a, "b": b, "fill": f, "fi": as_int})
+        elif kind == 1:
+            qs.append({"k": "wts", "a": a, "b": b, "fill": "raw"})
+        elif kind == 2:
+            qs.append({"k": "wts", "a": a, "b": b, "fill": "raw", "fc": False})
+    return qs
+
+
 def gen_case(rng: random.Random, odd_period: bool = False) -> dict:
     cap = rng.choice([1, 2, 3, 3, 4, 5, 6])
     period = rng.choice(ODD_PERIODS if odd_period else PERIODS)
@@ -453,7 +523,7 @@ def gen_case(rng: random.Random, odd_period: bool = False) -> dict:
     case = {"cap": cap, "period": period, "align": align, "container": rng.choice(["list", "numpy"]),
             "init": init_for(cap), "ops": gen_ops(rng, cap, period, align, rng.randint(1, 25), base_slot),
             "pickle": rng.random() < 0.08}
-    case["q"] = gen_queries(rng, case, rich=False)
+    case["q"] = gen_queries(rng, case, rich=False) + span_queries(case, rng)
     return case
 
 
